@@ -38,6 +38,9 @@ where
   pub fn clear(&self) {
     *self.inner.write().unwrap() = None;
   }
+  pub fn clear_if_available(&self) -> bool {
+    self.inner.write().unwrap().take().is_some()
+  }
   pub fn empty(&self) -> bool {
     self.inner.read().unwrap().is_none()
   }
